@@ -103,9 +103,8 @@ func (r *ClusterReconciler) reconcileLfsProxyService(ctx context.Context, cluste
 		svc.Spec.Ports = ports
 		svc.Spec.Type = parseServiceType(cluster.Spec.LfsProxy.Service.Type)
 		svc.Annotations = annotations
-		if len(cluster.Spec.LfsProxy.Service.LoadBalancerSourceRanges) > 0 {
-			svc.Spec.LoadBalancerSourceRanges = append([]string{}, cluster.Spec.LfsProxy.Service.LoadBalancerSourceRanges...)
-		}
+		// Assigned unconditionally: ranges cleared in the spec must not survive from an earlier reconcile.
+		svc.Spec.LoadBalancerSourceRanges = append([]string(nil), cluster.Spec.LfsProxy.Service.LoadBalancerSourceRanges...)
 		return controllerutil.SetControllerReference(cluster, svc, r.Scheme)
 	})
 	return err
